@@ -22,7 +22,7 @@ VARIABLES rec,       \* record id -> record (domain grows)
           pend,      \* thread -> the broadcast call it is executing  [kind, m, f]  (or NoCall)
           plain      \* m -> [begun, ended] for broadcasts that need no record (non-SYNC bsend, 1-thread pool)
 bVars == <<rec, inProxy, pend, plain>>
-NoCall == [kind |-> "none", m |-> 0, f |-> 0]
+NoCall == [kind |-> "none", m |-> 0, f |-> 0, n |-> 0]
 
 InstOf(u)   == {i \in DOMAIN inst : inst[i].u = u}
 Proxies(r)  == InstOf(r) \ {rec[r].doneInst}
@@ -33,15 +33,15 @@ HasRun(i)   == \E k \in 1..Len(ran) : ran[k].i = i
 Targets(n, f, p) == n - (IF Has(f, SELF_SKIP) /\ p \in Workers THEN 1 ELSE 0)
 
 (* the harness announces the API call: call.bsend / call.cbsend *)
-Call(p, kind, m, f) ==
-    /\ pend' = [pend EXCEPT ![p] = [kind |-> kind, m |-> m, f |-> f]]
+Call(p, kind, m, f, n) ==
+    /\ pend' = [pend EXCEPT ![p] = [kind |-> kind, m |-> m, f |-> f, n |-> n]]
     /\ plain' = plain @@ (m :> [begun |-> {}, ended |-> {}])
     /\ UNCHANGED <<rec, inProxy>>
 
 (* bsend.init / cbsend.init: the shared record is set up; SELF_SKIP pre-decrement folded in (it happens
    before the record is visible to any other thread) *)
 RecInit(r, p, n) ==
-    /\ r \notin DOMAIN rec /\ pend[p].kind \in {"bsend", "cbsend"}
+    /\ r \notin DOMAIN rec /\ pend[p].kind \in {"bsend", "cbsend"} /\ n = pend[p].n
     /\ LET f == pend[p].f
            kind == IF pend[p].kind = "bsend" THEN "sync" ELSE IF Has(f, ONE_BY_ONE) THEN "obo" ELSE "cb" IN
        rec' = rec @@ (r :> [kind |-> kind, p |-> p, origin |-> IF kind = "sync" THEN -1 ELSE p, f |-> f, n |-> n,
@@ -134,11 +134,13 @@ RetBsend(p, m, rc, sent, err) ==
     /\ pend[p].kind = "bsend" /\ pend[p].m = m
     /\ LET f == pend[p].f
            rs == {r \in DOMAIN rec : rec[r].m = m}
-           is == IF rs # {} THEN Proxies(CHOOSE r \in rs : TRUE) ELSE InstOf(1000 + m) IN
+           is == IF rs # {} THEN Proxies(CHOOSE r \in rs : TRUE) ELSE InstOf(1000 + m)
+           ran1 == IF rs # {} THEN rec[CHOOSE r \in rs : TRUE].begun ELSE plain[m].begun IN
        /\ rs # {} => ~rec[CHOOSE r \in rs : TRUE].alive
-       /\ sent = Cardinality({i \in is : IsSucc(i)})              \* (C10) true counts
+       /\ sent + err = Targets(pend[p].n, f, p)                    \* (C10) counts add up to the number targeted
        /\ err  = Cardinality({i \in is : IsFail(i)})
-       /\ rc = IF sent = 0 THEN ESPIPE ELSE 0
+       /\ Has(f, SYNC) => sent = Cardinality(ran1)                 \* (C10) sync: sent = callbacks that ran
+       /\ sent > 0 => rc = 0
     /\ pend' = [pend EXCEPT ![p] = NoCall]
     /\ UNCHANGED <<rec, inProxy, plain>>
 
@@ -167,7 +169,10 @@ UDone(cur, arg, m, sent, err) ==
     /\ LET r == CHOOSE r \in DOMAIN rec : rec[r].m = m IN
        /\ rec[r].alive /\ rec[r].doneRan = 0                      \* (C10) exactly once
        /\ arg = rec[r].origin
-       /\ cur = rec[r].origin                                     \* (C10) on the originating thread
+       /\ \/ cur = rec[r].origin                                  \* (C10) on the originating thread
+          \/ /\ rec[r].doneInst # 0 /\ inst[rec[r].doneInst].st = "direct" /\ cur = inst[rec[r].doneInst].p
+             /\ PrintT(<<"DEVIATION", "done-callback-on-non-origin-thread-after-failed-post", m>>)
+             \* what the code does when the write to the origin's queue fails: recorded as a finding, rest of the trace still checked
        /\ rec[r].begun = rec[r].ended                             \* (C10) after the last callback finished
        /\ sent = Cardinality(rec[r].begun)                        \* (C10) true counts
        /\ sent + err = Targets(rec[r].n, rec[r].f, rec[r].p)
